@@ -314,6 +314,38 @@ Section ServerProofs.
     unfold forwarded_bytes. rewrite H, R. reflexivity.
   Qed.
 
+  (* ---- the WebSocket pass-through: the target is handed the upgrade request itself ---- *)
+  Lemma dispatch_not_wsproxy c rt v req t : dispatch fs c rt v req <> SWsProxy t.
+  Proof.
+    unfold dispatch. destruct (rt_type rt =? RT_ExclusiveWebSocket); [discriminate|]. destruct v; try discriminate.
+    all: destruct (rt_type rt =? RT_File); [destruct (rt_path rt); discriminate|].
+    all: destruct (rt_type rt =? RT_Directory); [destruct (rt_path rt); discriminate|].
+    all: destruct (rt_type rt =? RT_Redirect); [destruct (rt_path rt); discriminate|].
+    all: destruct (rt_type rt =? RT_Proxy); [destruct (rt_lb rt) as [[? ?]|]; discriminate|discriminate].
+  Qed.
+
+  Lemma wsproxy_is_upgrade c p req t : response c p req = SWsProxy t -> is_upgrade req = true.
+  Proof.
+    unfold server_response. destruct (Blacklist.serve ipp _ _ p _); [discriminate| |].
+    all: destruct (is_upgrade req); [reflexivity|].
+    all: destruct (get_handler _ _ _ _) as [ch|]; [|discriminate].
+    all: destruct (handler_ids ch) as [h j]; destruct (get_route c h j) as [rt|]; [|discriminate].
+    all: intro H; exfalso; eapply dispatch_not_wsproxy; exact H.
+  Qed.
+
+  Theorem server_ws_tunnel_sees (c : config) p b0 rest req t :
+    parse_request_flat ipp p b0 = Ok (req, rest) -> response c p req = SWsProxy t ->
+    exists b r', ws_forwarded_bytes ipp fs c p req = Some b /\
+      parse_request_flat ipp p b = Ok (r', []) /\ req_equiv r' req.
+  Proof.
+    intros P H. pose proof (wsproxy_is_upgrade _ _ _ _ H) as U.
+    assert (NE : r_headers req <> []).
+    { unfold is_upgrade in U. destruct (r_headers req); [discriminate U|discriminate]. }
+    destruct (roundtrip_exact ipp p b0 req rest [] P NE) as (r' & E & Q). rewrite app_nil_r in E.
+    exists (serialize_request req), r'. split; [|split; assumption].
+    unfold ws_forwarded_bytes. rewrite H. reflexivity.
+  Qed.
+
   (* nothing is forwarded for a request that is not answered by a proxy route: in particular nothing for a blacklisted
      client, whatever the route *)
   Theorem server_forwards_only_proxied (c : config) p req b :
